@@ -30,6 +30,7 @@ class Verifier:
         self.tier = "thorough" if need > 1 else "quick"
         self.jobs = jobs
         self.lib_used = set()
+        self.inlined = set()
         self.math_used = set()
         self.assumed = set()
         self.lemmas_used = set()
